@@ -645,6 +645,19 @@ impl OriginModel {
                     if v == 0 {
                         continue;
                     }
+                    if !self.held.contains(&v) {
+                        // a version that is completely buffered and only waits for its apply step counts as known:
+                        // the node ignores the Empty and goes on to apply what it has (BookedVersions::contains)
+                        if self.covered(v) {
+                            continue;
+                        }
+                        // complete by one supplier's last_seq only: which of the two the node does depends on the
+                        // declaration it kept - no demand until an apply step settles it
+                        if self.ambiguous(v) {
+                            self.undetermined.insert(v);
+                            continue;
+                        }
+                    }
                     self.held.insert(v);
                     self.partial.remove(&v);
                 }
